@@ -79,7 +79,11 @@ ViaSkipped(t, n, fuel) ==
 NeedsSparse(t) == {n \in Remaining(t) : ViaSkipped(t, n, Cardinality(DOMAIN t.m0))}
 SparseMasterOK(t) ==
   Has(t, "sparseHas") =>
-    \A n \in NeedsSparse(t) : n \in SetOf(t.sparseHas) /\ n \in DOMAIN t.rS /\ SameRendering(Expected(t, 4, n), t.rS[n])
+    \A n \in NeedsSparse(t) :
+       /\ n \in SetOf(t.sparseHas) /\ n \in DOMAIN t.rS
+       \* (what it draws can be read off the sparse master alone only when inlining leaves no reference to a glyph that this
+       \*  master does not hold -- otherwise the master font has an empty placeholder there)
+       /\ (Len(SkipExportGlyph(GlyphSetAt(t, 4), n, Skip(t)).comps) = 0 => SameRendering(Expected(t, 4, n), t.rS[n]))
 Clauses(t) ==
   IF Has(t, "err") THEN << <<"compiles", "P", FALSE>> >> ELSE
   << <<"skipped-absent",          "P", SetOf(t.order1) \cap Skip(t) = {}>>,
